@@ -80,3 +80,8 @@ package remember
 //@   ensures[C06,C07] registered_reset: emits Events.Register("After", EventRecoverEnd, ?h) :: fname(h) == "(*Remember).AfterPasswordReset"
 //@   ensures[C07] registered_auth: (emits Events.Register("After", EventAuth, ?h) :: fname(h) == "(*Remember).RememberAfterAuth") &&
 //@       (emits Events.Register("After", EventOAuth2, ?h2) :: fname(h2) == "(*Remember).RememberAfterAuth")
+//
+//@ func Middleware#1
+//@   property C07
+//@   -- the handler that is returned guards exactly the handler that was passed in
+//@   ensures guards_given_handler: bound(result, "next") == next && bound(result, "ab") == ab
